@@ -14,7 +14,7 @@ ASSUMPTIONS = ["numpy on one row is the reference, incl. numpy's identity for an
 REQUIRED_FEATURES = ["empty_row_first", "empty_row_last", "consecutive_empty_rows", "all_rows_empty", "zero_rows",
                      "keepdims", "axis_none", "ufunc_reduce", "undefined_reference", "arg_reduction", "float_inf_pattern", "float_nan_pattern", "same_object_sequence"]
 BOUNDS = {"quick": "LV(4,3) x 9 dtypes x 2 patterns x {sum,prod,any,all,max,min,mean,argmax,argmin} x {method axis=-1, np.f axis=-1, "
-                   "axis=1, keepdims, axis=None} + ufunc.reduce for add, multiply, logical_and/or/xor, bitwise_and/or/xor, maximum, minimum",
+                   "axis=1, keepdims, axis=None} + ufunc.reduce for add, multiply, logical_and/or/xor, bitwise_and/or/xor, maximum, minimum; value patterns cancel / +-inf / decimal / NaN; axis=1 spellings; same-object sequences of 13 reductions (contiguous and pending view); one 16-row array",
           "thorough": "LV(5,3) u LV(3,5), 3 patterns"}
 NAMED = ["sum", "prod", "any", "all", "max", "min", "mean", "argmax", "argmin"]
 NEEDS_NONEMPTY = {"max", "min", "mean", "argmax", "argmin", "maximum", "minimum"}
